@@ -172,29 +172,11 @@ pub fn number_parse_float(
 /// Number.parseInt - same as global parseInt
 pub fn number_parse_int(
     interp: &mut Interpreter,
-    _this: JsValue,
+    this: JsValue,
     args: &[JsValue],
 ) -> Result<Guarded, JsError> {
-    let arg = args.first().cloned().unwrap_or(JsValue::Undefined);
-    let s = interp.to_js_string(&arg).to_string();
-    let radix = args.get(1).map(|v| v.to_number() as i32).unwrap_or(10);
-
-    let trimmed = s.trim_start();
-
-    // Handle radix
-    let radix = if radix == 0 {
-        10
-    } else if !(2..=36).contains(&radix) {
-        return Ok(Guarded::unguarded(JsValue::Number(f64::NAN)));
-    } else {
-        radix
-    };
-
-    let result = i64::from_str_radix(trimmed, radix as u32)
-        .map(|n| n as f64)
-        .unwrap_or(f64::NAN);
-
-    Ok(Guarded::unguarded(JsValue::Number(result)))
+    // Number.parseInt is the same function as the global parseInt
+    super::global::global_parse_int(interp, this, args)
 }
 
 // Number.isNaN - stricter, no type coercion
